@@ -206,6 +206,13 @@ fn clvm_tree_to_lazy_node(obj: Bound<'_, PyAny>) -> PyResult<LazyNode> {
         },
     }
 
+    // The identity map is keyed by object address. Objects whose `.pair`
+    // accessor builds fresh children on every call (e.g. `LazyNode`) would
+    // otherwise be freed while we still hold their address, and a later child
+    // could be allocated at the same address and be mistaken for the earlier
+    // one. Keep every visited object alive for the duration of the walk.
+    let mut keep_alive: Vec<Bound<'_, PyAny>> = Vec::new();
+
     let root_ptr = obj.as_ptr() as usize;
     let mut stack: Vec<WorkItem<'_>> = vec![WorkItem::Visit(obj)];
 
@@ -217,6 +224,7 @@ fn clvm_tree_to_lazy_node(obj: Bound<'_, PyAny>) -> PyResult<LazyNode> {
                 if identity_map.contains_key(&id) {
                     continue;
                 }
+                keep_alive.push(pyobj.clone());
 
                 let atom_val: Option<Vec<u8>> = pyobj.getattr("atom")?.extract()?;
 
